@@ -101,7 +101,9 @@ pub fn generate(id: &str, run_seed: u64, _thorough: bool) -> Plan {
         "C16" => f_cancel(run_seed),
         "C17" => f_hostile(run_seed),
         "C15" => {
-            if pick < 50 {
+            if pick < 45 {
+                f_limits(run_seed, true)
+            } else if pick < 70 {
                 f_lease(run_seed, &LeaseOpts { modacks: false, limits: true })
             } else {
                 f_consumers(run_seed, false)
